@@ -67,13 +67,19 @@ RandVector(k) ==
     ELSE IF k = 2 THEN      \* a source that delivers too-small numbers first: the generator must not return them
       << Step("gen_random", "C09", FALSE, [n |-> 1, rand |-> [mode |-> "replay", stream |-> Cat(<< FillT("zero", 256, 0), FillT("ff", 256, 0), Cat(<< FillT("zero", 239, 0), FillT("ff", 17, 0) >>), FillT("seeded", 256, 5) >>)]],
               [panic |-> FALSE, err |-> FALSE, inrange |-> TRUE]) >>
+    ELSE IF k >= 12 /\ k <= 19 THEN   \* k - 11 unusable draws in a row (all zero), then usable octets: still a number in range, however long it takes
+      << Step("gen_random", "C09", FALSE, [n |-> 1, rand |-> [mode |-> "replay", stream |-> Cat(<< FillT("zero", 256 * (k - 11), 0), FillT("seeded", 1024, k) >>)]],
+              [panic |-> FALSE, err |-> FALSE, inrange |-> TRUE]) >>
+    ELSE IF k >= 20 THEN    \* k - 19 unusable draws in a row, then the source fails: an error, never one of the unusable numbers
+      << Step("gen_random", "C09", FALSE, [n |-> 1, rand |-> [mode |-> "replay", stream |-> FillT("zero", 256 * (k - 19), 0), failat |-> k - 19]],
+              [panic |-> FALSE, err |-> TRUE, hasnum |-> FALSE, faultok |-> TRUE]) >>
     ELSE                    \* failing source at read k - 3
       << Step("gen_random", "C09", FALSE, [n |-> 3, rand |-> [mode |-> "fail", seed |-> k, failat |-> k - 3]],
               IF k = 3 THEN [panic |-> FALSE, err |-> TRUE, hasnum |-> FALSE, faultok |-> TRUE] ELSE [panic |-> FALSE, faultok |-> TRUE]) >>)
 
 Init == stage = 0 /\ g = 0 /\ xi = 0 /\ yi = 0
 Next == \/ stage = 0 /\ stage' = 1 /\ g' \in {2, 14} /\ xi' \in 1..NExp /\ yi' = 0
-        \/ stage = 0 /\ stage' = 2 /\ g' = 0 /\ xi' \in 0..11 /\ yi' = 0
+        \/ stage = 0 /\ stage' = 2 /\ g' = 0 /\ xi' \in 0..27 /\ yi' = 0
         \/ stage = 1 /\ stage' = 2 /\ yi' \in 1..NPeer /\ UNCHANGED << g, xi >>
         \/ stage = 2 /\ UNCHANGED << stage, g, xi, yi >>
 Emit == stage = 2 => PrintT(ToJson(IF g = 0 THEN RandVector(xi) ELSE PairVector(g, xi, yi)))
